@@ -188,6 +188,23 @@ PBT_PROPERTY(sort_big) {
     unsigned samode = (unsigned)src.weighted({5, 2, 0});
     if ((c.rep == R_UPTR || c.rep == R_SUFFIX) && c.algo == A_FRONT) c.algo = A_CE3;
     if (sh.style == S_RANDOM && sh.k == 1) sh.k = 2; // geometric shrinking of buckets needs >= 2 symbols
+    // make the memory fall-back inside the 16-bit loops (a bucket >= 65536 at stack level j that may not be pushed) likely:
+    // memory = own estimate + j RadixSteps + safe remainder, shared prefix long enough for j+1 stacked levels
+    bool sixteen = (c.algo == A_CE3 || c.algo == A_CI3 || c.algo == A_FRONT) && n >= 65536;
+    if (c.memclass == M_THRESH && sh.style == S_DOMINANT && c.rep != R_SUFFIX && sixteen && (c.mem_rsel & 0x40) == 0) {
+        c.mem_own = true;
+        c.mem_j = 3 + c.mem_j % 3;
+        // the fall-back happens at stack level j for the bucket that shares 2j bytes: let the shared prefix end exactly
+        // there (so that the very next byte differs), one byte later, or further on
+        switch (psel % 4) {
+        case 0:
+        case 1: sh.prefix_len = 2 * c.mem_j; break;
+        case 2: sh.prefix_len = 2 * c.mem_j + 1; break;
+        default: sh.prefix_len = std::max<size_t>(sh.prefix_len, 2 * c.mem_j + 2); break;
+        }
+        sh.dominant_pct = 100 - (100 - sh.dominant_pct) % 3;
+        pbt::label("mem_16bit_stack_fallback_forced");
+    }
     if (sh.style == S_RANDOM && sh.maxtail < 4) sh.maxtail = 4;
 
     PrngRnd r(seed);
